@@ -7,6 +7,7 @@ import Csproto.Bridge.SkipFuncs
 import Csproto.Props.C03Source
 import Csproto.Bridge.SeekFuncs
 import Csproto.Bridge.PackedFuncs
+import Csproto.Props.C03SourcePacked
 /- axiom audit for C03 -/
 open Csproto
 #print axioms C03.step_safe
@@ -92,3 +93,16 @@ open Csproto
 #print axioms Csproto.Bridge.PackedFuncs.DecodePackedFixed64_refines
 #print axioms Csproto.Bridge.PackedFuncs.DecodePackedFixed32_refines
 #print axioms Csproto.Bridge.PackedFuncs.DecodePackedBool_refines
+
+-- totality of DecodeBool, Seek and nine packed readers of the translated source: Props/C03SourcePacked.lean
+#print axioms Csproto.C03.Source.DecodeBool_total
+#print axioms Csproto.C03.Source.Seek_total
+#print axioms Csproto.C03.Source.DecodePackedUint64_total
+#print axioms Csproto.C03.Source.DecodePackedInt64_total
+#print axioms Csproto.C03.Source.DecodePackedUint32_total
+#print axioms Csproto.C03.Source.DecodePackedInt32_total
+#print axioms Csproto.C03.Source.DecodePackedSint64_total
+#print axioms Csproto.C03.Source.DecodePackedSint32_total
+#print axioms Csproto.C03.Source.DecodePackedFixed64_total
+#print axioms Csproto.C03.Source.DecodePackedFixed32_total
+#print axioms Csproto.C03.Source.DecodePackedBool_total
